@@ -32,13 +32,22 @@ type wop struct {
 	key  string
 	inj  [][]wop
 	pre  []wop // 'D' only: Adds performed after the watermark was received, before it is handled
+	nest bool  // top-level 'A' only: one watermark delivery runs inside the row's late-update callback (the window
+	// lock is released there), or right after the Add when there is no late update: the model's "A then D"
+	lateCase bool // generator bookkeeping: the row was generated late beyond tolerance
 }
+
+// skipObs: the history cannot be compared step by step (several late updates around a nested delivery)
+const skipObs = "SKIP"
 
 func (o wop) String() string {
 	switch o.kind {
 	case 'A':
 		if o.key != "" {
 			return fmt.Sprintf("A %d %d %s", o.id, o.ts, o.key)
+		}
+		if o.nest {
+			return fmt.Sprintf("A %d %d D 0", o.id, o.ts)
 		}
 		return fmt.Sprintf("A %d %d", o.id, o.ts)
 	case 'N':
@@ -130,6 +139,16 @@ func runWin(w stepWin, ops []wop, keyed bool) string {
 	injecting := false
 	var held []string // keyed windows: batches of one delivery, printed sorted (Go map order must not matter)
 	holding := false
+	nestArmed, nestCount, skipped := false, 0, false
+	nestedDeliver := func() {
+		inj = [][]wop{}
+		if w.VerifDeliverOne(func(wmk int64) { fmt.Fprintf(&sb, " db %d", wmk) }) {
+			sb.WriteString(" de")
+		} else {
+			sb.WriteString(" d0")
+		}
+		inj = nil
+	}
 	doAdd := func(a wop) {
 		if a.kind == 'A' {
 			if keyed {
@@ -164,6 +183,17 @@ func runWin(w stepWin, ops []wop, keyed bool) string {
 		} else {
 			sb.WriteString(bb.String())
 		}
+		if nestArmed {
+			nestCount++
+			if nestCount == 1 {
+				nestArmed = false
+				nestedDeliver()
+				nestArmed = true
+			} else {
+				skipped = true
+			}
+			return
+		}
 		if inj != nil && !injecting {
 			k := fire
 			fire++
@@ -179,7 +209,16 @@ func runWin(w stepWin, ops []wop, keyed bool) string {
 	for _, o := range ops {
 		switch o.kind {
 		case 'A', 'N':
-			doAdd(o)
+			if o.nest && !keyed {
+				nestArmed, nestCount = true, 0
+				doAdd(o)
+				nestArmed = false
+				if nestCount == 0 {
+					nestedDeliver()
+				}
+			} else {
+				doAdd(o)
+			}
 		case 'D':
 			inj, fire = o.inj, 0
 			if inj == nil {
@@ -255,6 +294,9 @@ func runWin(w stepWin, ops []wop, keyed bool) string {
 		w.VerifDrain()
 	}
 	w.Stop()
+	if skipped {
+		return skipObs
+	}
 	return strings.TrimSpace(sb.String())
 }
 
